@@ -144,7 +144,11 @@ class SvsInst:
                 need_notif = True
                 self.logger.debug('Outdated remote on: [%s]: %s < %s', enc.Name.to_str(rsv_id), rsv_seq, lsv_seq)
 
-        if need_notif or self.state == SvsState.SyncSuppression:
+        if self.next_sync_timing == 0:
+            # new_data() has requested a sync Interest that the timer task has not sent yet.
+            # It will carry the merged vector: nothing to suppress, and it must not be postponed.
+            pass
+        elif need_notif or self.state == SvsState.SyncSuppression:
             # Set the aggregation timer
             if self.state == SvsState.SyncSteady:
                 self.state = SvsState.SyncSuppression
